@@ -3,6 +3,7 @@ Machine-checked counter-examples of the open findings of C20 (non-gating: when a
 /repo and the model follows, the corresponding refutation stops compiling).
 -/
 import AsyncFix.Props.C20
+import AsyncFix.Props.C20Lock
 namespace AsyncFix.Findings.C20
 open AsyncFix.Tester AsyncFix.Props.C20
 
@@ -55,5 +56,37 @@ theorem fabricated_processable_full_refuted : ¬ fabricated_processable_full := 
   obtain ⟨o', b, hp⟩ := h none st0 r3.1 o0 aForeign (msgOf r3) (by decide +kernel) e
   rw [foreign_clordid_witness.2] at hp
   cases hp
+
+/-! ### C20-reply-nonascii-utf8 -/
+open AsyncFix.Session in
+def latinEx : Msg := Msg.mk' "D" [(58, "é")]
+
+open AsyncFix.Session in
+/-- after a clean Logon, `reply` of a message with the single-byte text "é" raises (its own decode of the
+UTF-8 bytes fails the checksum) … -/
+theorem reply_nonascii_witness :
+    (tRun (fun _ => true) (fun _ => true) 1 ⟨ciEx, mkAcceptor ciEx, []⟩
+      [(envEx 1, .iSend logonEx), (envEx 2, .aSend latinEx)]).out = .replyRaised := by decide +kernel
+
+open AsyncFix.Session in
+/-- … while the real acceptor endpoint delivers it (the link is quiet and the initiator counted it) -/
+theorem link_nonascii_witness :
+    (lRun (fun _ => true) (fun _ => true) ciEx (realAcceptor ciEx)
+      [(envEx 1, .iSend logonEx), (envEx 2, .aSend latinEx)]).quiet = true ∧
+    (lRun (fun _ => true) (fun _ => true) ciEx (realAcceptor ciEx)
+      [(envEx 1, .iSend logonEx), (envEx 2, .aSend latinEx)]).ci.sess.nextIn = 7 := by decide +kernel
+
+open AsyncFix.Session in
+theorem tester_lockstep_full_refuted : ¬ tester_lockstep_full := by
+  intro h
+  have := h (fun _ => true) (fun _ => true) 0 ciEx start_ciEx (envEx 1) logonEx (by decide) logonEx_ok
+    [(envEx 2, .aSend latinEx)] (by
+      intro x hx
+      simp only [List.mem_cons, List.mem_nil_iff, or_false] at hx
+      subst hx
+      exact ⟨by decide, ⟨by decide, by decide, by decide⟩, rfl, Or.inl ⟨by decide, by decide, by decide, by decide, by decide, by decide⟩⟩)
+  have hd := this.done
+  rw [reply_nonascii_witness] at hd
+  cases hd
 
 end AsyncFix.Findings.C20
